@@ -211,3 +211,18 @@ text("derived-request-extensions-local", A + "http_proxy.py", "                c
      "                connect_extensions = request.extensions\n                connect_request = Request(\n                    method=b\"CONNECT\",\n                    url=connect_url,\n                    headers=connect_headers,\n                    extensions=connect_extensions,\n                )")
 text("flow-wait-lt-one", A + "http2.py", "        while flow <= 0:", "        while flow < 1:")
 text("refusal-msg-fstring", A + "http_proxy.py", "                    msg = \"%d %s\" % (connect_response.status, reason_str)", "                    msg = f\"{connect_response.status} {reason_str}\"")
+
+
+# ---- independently produced behaviour-preserving refactors (/verif/neutral_seeded/<id>/patch.diff) ------------------------
+def _patch_variant(path: str) -> T.Callable[[str], bool]:
+    def apply(tmp: str) -> bool:
+        import subprocess
+        r = subprocess.run(["patch", "-p1", "-s", "-i", path], cwd=tmp, capture_output=True, text=True)
+        return r.returncode == 0
+    return apply
+
+
+import glob as _glob
+
+for _p in sorted(_glob.glob(os.path.join(os.path.dirname(os.path.dirname(os.path.abspath(__file__))), "neutral_seeded", "*", "patch.diff"))):
+    V("agent-" + os.path.basename(os.path.dirname(_p)), _patch_variant(_p))
